@@ -27,7 +27,7 @@ def main():
     for prop in sys.argv[1:]:
         wt = "/tmp/seed_" + prop
         sh("git checkout -q -- . && git checkout -q --detach main", cwd=wt)
-        for d in sorted(glob.glob(wt + "/seeds/m*")):
+        for d in sorted(glob.glob(wt + "/seeds/*m[0-9]*")):
             mi = os.path.basename(d)
             sid = "%s-%s" % (prop, mi)
             dst = "/verif/seeded/" + sid
